@@ -277,6 +277,15 @@ def respond (req : Sexp) : Sexp :=
     | some l, some r, some dir, some ps, some seed, some tries =>
       cexStrong l r (dir == .universal || dir == .forward) (dir == .universal || dir == .backward) ps seed tries
     | _, _, _, _, _, _ => bad
+  | .list [.atom "cex_external", spec, prog, ug, po, .atom dec, .atom dir, .atom rep, byp, simp, brk, probs, seed, tries] =>
+    match specSideOfSexp spec, Asp.programOfSexp prog, listOf UGEntry.ofSexp ug, listOf SAnn.ofSexp po,
+        Decomposition.ofName dec, Direction.ofName dir, FormulaRep.ofName rep with
+    | some spec, some prog, some ug, some po, some dec, some dir, some rep =>
+      match byp.asBool?, simp.asBool?, brk.asBool?, listOf Problem.ofSexp probs, seed.asNat?, tries.asNat? with
+      | some byp, some simp, some brk, some ps, some seed, some tries =>
+        cexExternal ⟨spec, prog, ug, po, dec, dir, rep, byp, simp, brk⟩ ps seed tries
+      | _, _, _, _, _, _ => bad
+    | _, _, _, _, _, _, _ => bad
   | .list [.atom "cex_gamma", f, g, seed, tries] =>
     match Formula.ofSexp f, Formula.ofSexp g, seed.asNat?, tries.asNat? with
     | some f, some g, some seed, some tries => cexGamma f g seed tries
